@@ -20,9 +20,28 @@ Models == Flatten2([b \in 1..Cardinality(R) |-> Flatten2([f \in 1..Cardinality(R
             [a \in DOMAIN Acts |-> <<"mse", Acts[a], b, f, 1>>]
             \o << <<"bce", "sigmoid", b, f, 1>> >>
             \o Flatten2([o \in 1..Cardinality(R) |-> << <<"ce", "softmax", b, f, o>>, <<"ce", "sigmoid", b, f, o>> >>])])])
-Descs == MyCases(Models)
+(* two stacked layers: FC(feat -> hidden) -> activation -> FC(hidden -> out) -> activation -> loss *)
+Deep == << <<"deep", "mse", "tanhact", "sigmoid", 2, 2, 2, 1>>, <<"deep", "bce", "relu", "sigmoid", 3, 1, 2, 1>>, <<"deep", "ce", "leakyrelu", "softmax", 2, 2, 3, 2>>,
+           <<"deep", "mse", "sigmoid", "relu", 1, 3, 1, 1>>, <<"deep", "ce", "tanhact", "sigmoid", 3, 2, 2, 3>> >>
+Descs == MyCases(Models \o Deep)
+
+ActPar(act) == CASE act = "leakyrelu" -> [k |-> Q(1, 10), nilconf |-> FALSE]
+                  [] act = "softmax" -> [dim |-> 1, nilconf |-> FALSE]
+                  [] OTHER -> NoPar
+BuildDeep(d) ==
+  LET loss == d[2] a1 == d[3] a2 == d[4] batch == d[5] feat == d[6] hid == d[7] out == d[8]
+      tdims == IF loss = "ce" THEN <<batch, out>> ELSE <<batch>>
+      inputs == <<In("w", <<hid>>, TRUE), In("b", <<hid>>, TRUE), In("v", <<out>>, TRUE), In("c", <<out>>, TRUE),
+                  In("x", <<batch, feat>>, FALSE), In("t", tdims, FALSE)>>
+      head == <<Ins("fc", NoPar, <<1, 2, 5>>), Ins(a1, ActPar(a1), <<7>>), Ins("fc", NoPar, <<3, 4, 8>>), Ins(a2, ActPar(a2), <<9>>)>>
+      code == IF loss = "ce" THEN head \o <<Ins("ce", NoPar, <<10, 6>>)>>
+              ELSE head \o <<Ins("squeeze", [dim |-> 1], <<10>>), Ins(loss, NoPar, <<11, 6>>)>>
+      root == Len(inputs) + Len(code)
+  IN MkCaseD("c11", "deep/" \o loss \o "/" \o a1 \o "/" \o a2, inputs, <<"small", "small", "small", "small", "small", IF loss = "mse" THEN "any" ELSE "targ01">>,
+             code, <<root>>, root, a1 \in {"relu", "leakyrelu"} \/ a2 \in {"relu", "leakyrelu"})
 
 Build(d) ==
+  IF d[1] = "deep" THEN BuildDeep(d) ELSE
   LET loss == d[1] act == d[2] batch == d[3] feat == d[4] out == d[5]
       par == CASE act = "leakyrelu" -> [k |-> Q(1, 10), nilconf |-> FALSE]
                [] act = "softmax" -> [dim |-> 1, nilconf |-> FALSE]
